@@ -21,6 +21,7 @@ TEXT = {
  "C08": ("differential decoding: an independent RFC 8536 writer and decoder (Must / MustFail / Unspec) against from_tz_data on generated v1/v2/v3 files, all 894 distinct vendored tzdata files and every single-field corruption of the named kinds", "trusts M-tzif (writer and decoder are checked against each other on every generated file; disagreement = inconclusive)"),
  "C09": ("recursive-descent recogniser + denotation written from the grammar against three entry points (settings, v2 footer, v3 footer): grammar cross product, every single-character edit of sentences, thorough: all strings of length <= 6 over a 14-letter alphabet", "trusts M-posix; strings with >3-digit numbers, whitespace or non-ASCII next to a name are left unspecified"),
  "C20": ("tzset(3) resolution model over a virtual file system with a recording reader: exact sequence of paths requested and result class, exhaustively over 44 value shapes x 9 directory lists x all file assignments", "trusts M-resolve; the real file system is not involved in this check"),
+ "C10": ("record-and-replay differential: tz-rs' answers for every transition -1/0/+1, random and far-future instants and local times around every transition since 1970 are logged and replayed offline against CPython zoneinfo and glibc reading the same vendored files (quick: 60+ files, thorough: all 1243 paths), plus TZ descriptions against glibc's parser", "trusts zoneinfo and glibc 2.36 as oracles, with the exclusions listed in the evidence assumptions"),
  "C11": ("brute-force 400-year definition against the constructor on all 1 324 801 day-notation pairs x breakpoints of d (thorough: all 105 breakpoints, each realised twice), error variant = first violated condition", "trusts M-rule day tables (closed form validated against walking the month over the cycle)"),
  "C12": ("probe zones pin the hidden UTC<->leap-count conversions: forward switch instant, instant reported by the search, their agreement, monotonicity; tables of both signs incl. the real 27-record one", "trusts M-leap (f defined as max{L: g(L)<=u}, brute-force validated)"),
  "C13": ("clause-by-clause validator against both constructors on valid zones, every single-defect perturbation at first/middle/last position, extremes and random malformed tuples", "trusts the A.3 validator; error variants compared on single-defect inputs only"),
@@ -29,6 +30,15 @@ TEXT = {
  "C17": ("find_n against the allocating search for every buffer length 0..k+2 with stale pre-filled buffers, error cases included", "the allocating search is the oracle (its own correctness is C05/C06)"),
  "C18": ("independent regular-grammar reader of the rendering; fields, nanoseconds and offset read back and compared with the getters; offsets over the full i32 range", "trusts M-text"),
 }
+
+TECH = {
+ "C07": "runtime monitoring: panic hook + counting allocator + thread CPU clock on hostile workloads (release + overflow-checked builds, Miri slice; thorough: libFuzzer+ASan, valgrind memcheck)",
+ "C10": "runtime monitoring: offline checker over a recorded event log against two foreign implementations (CPython zoneinfo, glibc)",
+ "C15": "runtime monitoring: N-thread vs alone result digests, LD_PRELOAD getenv/tzset interposer, strace window, Miri / ThreadSanitizer; build-time artefact-section scan and auto-trait assertions",
+ "C19": "runtime monitoring: differential result digests of one workload across the three feature builds",
+ "C20": "runtime monitoring: recorded reader-call history checked against a tzset(3) resolution model over a virtual file system",
+}
+
 
 def entry(pid):
     text, note = TEXT.get(pid, ("runtime monitor", ""))
@@ -41,7 +51,7 @@ def entry(pid):
         "engine": "tzmon",
         "level_claimed": {"category": "exploration", "text": text + "; held on the executions listed in the evidence file, not a proof", "design_ref": "DESIGN.md section 5 " + pid},
         "level_note": note,
-        "technique": "runtime monitoring: reference-model oracle on API call/return events of the real code (release + overflow-checked builds, Miri slice)",
+        "technique": TECH.get(pid, "runtime monitoring: reference-model oracle on API call/return events of the real code (release + overflow-checked builds, Miri slice)"),
     }
 
 claimed = sorted(layers.PROPS.keys())
